@@ -34,7 +34,6 @@ import (
 	"github.com/AdguardTeam/AdGuardDNS/internal/geoip"
 	"github.com/AdguardTeam/AdGuardDNS/verif/stack"
 	"github.com/AdguardTeam/AdGuardDNS/verif/vkit"
-	"github.com/AdguardTeam/golibs/netutil"
 	"github.com/miekg/dns"
 )
 
@@ -72,6 +71,8 @@ type world struct {
 	ASNSub  map[string]netip.Prefix `json:"asn_subnets"`
 	CtrySub map[string]netip.Prefix `json:"country_subnets"`
 	Clients []client                `json:"clients"`
+	// Plans is how the coarse subnets of a family (v4, v6) relate.
+	Plans [2]string `json:"coarse_subnet_plans"`
 }
 
 func famOf(a netip.Addr) int {
@@ -153,52 +154,135 @@ func newWorld(rng *rand.Rand) *world {
 	for _, i := range perm[:3] {
 		w.Locs = append(w.Locs, locationPool[i])
 	}
-	k := 0
+	// Coarse subnets live in 100.64.0.0/10 and 2001:dc00::/24; no client
+	// address or client-supplied prefix is ever taken from there.  Per family a
+	// history follows a plan for how its coarse subnets relate to each other
+	// (a subnet is identified by address AND length, bit for bit):
+	//   partial  - same non-byte-aligned length, same leading whole bytes,
+	//              different bits in the last, partial byte
+	//   lastbyte - same length, different only in the last whole byte
+	//   nested   - same network address, longer prefix
+	//   free     - unrelated
 	var prev [2][]netip.Prefix
-	var fresh func(fam int) netip.Prefix
-	newCoarse := func(fam int) netip.Prefix {
-		// Sometimes nest: same network address as an earlier coarse subnet of
-		// the family, longer prefix (a subnet is identified by address AND
-		// length).
-		if ps := prev[fam/6]; len(ps) > 0 && rng.IntN(3) == 0 {
-			o := ps[rng.IntN(len(ps))]
-			longer := map[int][]int{4: {20, 24, 28}, 6: {40, 48, 56, 64}}[fam]
-			var cand []int
-			for _, b := range longer {
-				if b > o.Bits() {
-					cand = append(cand, b)
+	var plans [2]string
+	for f := range plans {
+		switch x := rng.IntN(100); {
+		case x < 40:
+			plans[f] = "partial"
+		case x < 55:
+			plans[f] = "lastbyte"
+		case x < 70:
+			plans[f] = "nested"
+		default:
+			plans[f] = "free"
+		}
+	}
+	w.Plans = plans
+	// fixedBits is the part of the address that keeps the subnet inside the
+	// coarse space.
+	fixedBits := map[int]int{4: 10, 6: 24}
+	unaligned := map[int][]int{
+		4: {12, 13, 14, 15, 18, 19, 20, 21, 22, 23, 26, 27, 28, 29, 30},
+		6: {34, 36, 37, 39, 42, 44, 45, 47, 50, 52, 53, 55, 58, 60, 61, 63},
+	}
+	aligned := map[int][]int{4: {16, 24}, 6: {32, 40, 48, 56, 64}}
+	isNew := func(fam int, p netip.Prefix) bool {
+		if !p.IsValid() || p != p.Masked() {
+			return false
+		}
+		for _, q := range prev[fam/6] {
+			if q == p {
+				return false
+			}
+		}
+		return true
+	}
+	fresh := func(fam int, plan string) netip.Prefix {
+		for {
+			var bits int
+			switch {
+			case plan == "partial" || (plan != "lastbyte" && rng.IntN(2) == 0):
+				bits = unaligned[fam][rng.IntN(len(unaligned[fam]))]
+			case plan == "lastbyte" && rng.IntN(2) == 0:
+				bits = []int{18, 20, 22, 27}[rng.IntN(4)]
+				if fam == 6 {
+					bits = []int{36, 44, 52, 60}[rng.IntN(4)]
 				}
+			default:
+				bits = aligned[fam][rng.IntN(len(aligned[fam]))]
 			}
-			dupl := len(cand) == 0
 			var p netip.Prefix
-			if !dupl {
-				p = netip.PrefixFrom(o.Addr(), cand[rng.IntN(len(cand))])
+			if fam == 4 {
+				a := netip.AddrFrom4([4]byte{100, byte(64 + rng.IntN(64)), byte(rng.IntN(256)), byte(rng.IntN(256))})
+				p = netip.PrefixFrom(a, bits).Masked()
+			} else {
+				b := [16]byte{0x20, 0x01, 0xdc}
+				for i := 3; i < 10; i++ {
+					b[i] = byte(rng.IntN(256))
+				}
+				p = netip.PrefixFrom(netip.AddrFrom16(b), bits).Masked()
 			}
-			for _, q := range ps {
-				dupl = dupl || q == p
-			}
-			if !dupl {
-				prev[fam/6] = append(prev[fam/6], p)
+			if isNew(fam, p) {
 				return p
 			}
 		}
-		p := fresh(fam)
+	}
+	// flipIn returns o with the bits [from, to) of its address re-drawn.
+	flipIn := func(o netip.Prefix, from, to int) netip.Prefix {
+		b := o.Addr().AsSlice()
+		for i := from; i < to; i++ {
+			b[i/8] &^= 0x80 >> (i % 8)
+			if rng.IntN(2) == 1 {
+				b[i/8] |= 0x80 >> (i % 8)
+			}
+		}
+		a, _ := netip.AddrFromSlice(b)
+		return netip.PrefixFrom(a, o.Bits())
+	}
+	related := func(fam int, plan string, o netip.Prefix) netip.Prefix {
+		L := o.Bits()
+		switch plan {
+		case "partial":
+			if L%8 == 0 {
+				return netip.Prefix{}
+			}
+			return flipIn(o, max(fixedBits[fam], L/8*8), L)
+		case "lastbyte":
+			lo := (L/8 - 1) * 8
+			return flipIn(o, max(fixedBits[fam], lo), lo+8)
+		case "nested":
+			var cand []int
+			for _, b := range append(append([]int{}, unaligned[fam]...), aligned[fam]...) {
+				if b > L {
+					cand = append(cand, b)
+				}
+			}
+			if len(cand) == 0 {
+				return netip.Prefix{}
+			}
+			return netip.PrefixFrom(o.Addr(), cand[rng.IntN(len(cand))])
+		}
+		return netip.Prefix{}
+	}
+	newCoarse := func(fam int) netip.Prefix {
+		plan := plans[fam/6]
+		ps := prev[fam/6]
+		if len(ps) >= 2 && rng.IntN(4) == 0 {
+			// a third subnet sometimes follows another plan
+			plan = []string{"partial", "lastbyte", "nested", "free"}[rng.IntN(4)]
+		}
+		var p netip.Prefix
+		for try := 0; try < 8 && len(ps) > 0 && plan != "free"; try++ {
+			if q := related(fam, plan, ps[rng.IntN(len(ps))]); isNew(fam, q) {
+				p = q
+				break
+			}
+		}
+		if !p.IsValid() {
+			p = fresh(fam, plan)
+		}
 		prev[fam/6] = append(prev[fam/6], p)
 		return p
-	}
-	fresh = func(fam int) netip.Prefix {
-		k++
-		if fam == 4 {
-			// Coarse IPv4 space 100.64.0.0/10; no client address or client
-			// prefix is ever taken from it.
-			bits := []int{16, 20, 24}[rng.IntN(3)]
-			a := netip.AddrFrom4([4]byte{100, byte(64 + k), byte(rng.IntN(256)), 0})
-			return netip.PrefixFrom(a, bits).Masked()
-		}
-		// Coarse IPv6 space 2001:dc00::/24.
-		bits := []int{32, 40, 48, 56}[rng.IntN(4)]
-		b := [16]byte{0x20, 0x01, 0xdc, byte(k), byte(rng.IntN(256)), byte(rng.IntN(256)), byte(rng.IntN(256))}
-		return netip.PrefixFrom(netip.AddrFrom16(b), bits).Masked()
 	}
 	for i, l := range w.Locs {
 		o := byte(16*(i+1) + rng.IntN(16))
@@ -244,19 +328,6 @@ func newWorld(rng *rand.Rand) *world {
 	return w
 }
 
-// geoFix wraps the shared GeoIP fake: the real database returns the
-// unspecified prefix of the family (netutil.ZeroPrefix) for locations without
-// a subnet, the shared fake returns the invalid netip.Prefix{}.
-type geoFix struct{ *stack.Geo }
-
-func (g geoFix) SubnetByLocation(l *geoip.Location, fam netutil.AddrFamily) (netip.Prefix, error) {
-	p, err := g.Geo.SubnetByLocation(l, fam)
-	if !p.IsValid() {
-		p = netutil.ZeroPrefix(fam)
-	}
-	return p, err
-}
-
 func (w *world) geo() geoip.Interface {
 	g := stack.NewGeo()
 	for i, l := range w.Locs {
@@ -272,7 +343,7 @@ func (w *world) geo() geoip.Interface {
 			}
 		}
 	}
-	return geoFix{g}
+	return g
 }
 
 // ---------------------------------------------------------------------------
@@ -1221,21 +1292,40 @@ func (rn *runner) check(r *vkit.Run, observed []*obs, sequential bool) {
 			// went upstream although an answer for the same question and DO,
 			// still cacheable, was obtained earlier for another subnet.
 			if own && sequential {
+				past, sib := false, ""
 				for m := 1; m < n; m++ {
 					c2 := rn.calls[m]
 					if c2 == nil || c2.ForStep < 0 || c2.ForStep >= i || c2.Name != call.Name || c2.Qtype != call.Qtype ||
 						h.Steps[c2.ForStep].DO != s.DO || c2.TTL < 3600 {
 						continue
 					}
-					if mayServe(c2, fakeListed, declined, fam, set) != "" {
-						if declined {
-							r.Bucket("optout_went_upstream_past_subnet_answer", 1)
-						} else {
-							r.Bucket("went_upstream_past_other_subnet_answer", 1)
-						}
-						nontrivial = true
-						break
+					if mayServe(c2, fakeListed, declined, fam, set) == "" {
+						continue
 					}
+					past = true
+					if c2.scoped() && !fakeListed && !declined && len(c2.ECS) > 0 {
+						for _, p := range set {
+							if k := siblingKind(c2.ECS[0].Prefix, p); k != "" {
+								sib = k
+							}
+						}
+					}
+				}
+				if past {
+					if declined {
+						r.Bucket("optout_went_upstream_past_subnet_answer", 1)
+					} else {
+						r.Bucket("went_upstream_past_other_subnet_answer", 1)
+					}
+					nontrivial = true
+				}
+				// Only where the earlier entry is certainly still cached (no
+				// LRU pressure, TTL 3600): the request of one sibling subnet
+				// went upstream although a scoped answer for the other sibling
+				// was in the cache.
+				if sib != "" && h.Cache.ECSCount >= 100 {
+					r.Bucket("went_upstream_past_scoped_answer_of_"+sib+"_sibling_subnet", 1)
+					served += "-past-" + sib + "-sibling"
 				}
 			}
 		}
@@ -1365,6 +1455,34 @@ func viol(r *vkit.Run, key, what string, mk func() any) {
 	}
 }
 
+// siblingKind classifies two distinct coarse subnets of the same family and
+// length: "partial-byte" if the length is not byte-aligned and they differ only
+// inside the last, partial byte; "last-byte" if they differ only in the last
+// whole byte; "" otherwise.
+func siblingKind(a, b netip.Prefix) string {
+	if !a.IsValid() || !b.IsValid() || a == b || a.Bits() != b.Bits() || a.Addr().BitLen() != b.Addr().BitLen() || a.Bits() < 8 {
+		return ""
+	}
+	x, y := a.Addr().AsSlice(), b.Addr().AsSlice()
+	L := a.Bits()
+	diff := -1
+	for i := range x {
+		if x[i] != y[i] {
+			if diff >= 0 {
+				return ""
+			}
+			diff = i
+		}
+	}
+	switch {
+	case L%8 != 0 && diff == L/8:
+		return "partial-byte"
+	case diff == L/8-1:
+		return "last-byte"
+	}
+	return ""
+}
+
 func overlapsAny(p netip.Prefix, set []netip.Prefix) bool {
 	for _, q := range set {
 		if q.IsValid() && q.Bits() > 0 && p.Overlaps(q) {
@@ -1397,6 +1515,19 @@ func runSequential(r *vkit.Run, idx int, verbose func(string, ...any)) {
 	}
 	rn.check(r, observed, true)
 	r.Bucket("histories_sequential", 1)
+	for _, fam := range []int{4, 6} {
+		kinds := map[string]bool{}
+		for a := 0; a < 3; a++ {
+			for b := a + 1; b < 3; b++ {
+				if k := siblingKind(h.World.coarse(a, fam), h.World.coarse(b, fam)); k != "" {
+					kinds[k] = true
+				}
+			}
+		}
+		for k := range kinds {
+			r.Bucket("histories_x_family_with_"+k+"_sibling_locations", 1)
+		}
+	}
 	r.Bucket("upstream_calls", int64(len(rn.calls)))
 	if idx%37 == 3 {
 		r.Sample(sampleOf(rn, observed))
@@ -1528,6 +1659,8 @@ func TestCheck(t *testing.T) {
 	r.Require("served_from_cache", 2000)
 	r.Require("reuse_scoped_answer_same_subnet_other_client", 100)
 	r.Require("went_upstream_past_other_subnet_answer", 200)
+	r.Require("went_upstream_past_scoped_answer_of_partial-byte_sibling_subnet", 30)
+	r.Require("went_upstream_past_scoped_answer_of_last-byte_sibling_subnet", 10)
 	r.Require("optout_requests", 1000)
 	r.Require("optout_went_upstream_past_subnet_answer", 50)
 	r.Require("formerr_ok", 500)
